@@ -3,6 +3,8 @@
 -/
 import Valida.Spec.Ser
 import ValidaProofs.Lemmas.Basic
+import ValidaProofs.Lemmas.C06Schema
+import ValidaProofs.Lemmas.C13Ser
 namespace ValidaProofs
 open Valida ValidaGen
 
@@ -12,13 +14,14 @@ theorem C13_cast_tables_invert :
     castLookup.all (fun e =>
       (castDtypeLookup.any (fun p => p.2 == e.1.1)) && (castDtypeLookup.any (fun p => p.2 == e.1.2))) = true ∧
     (castDtypeLookup.map (·.2)).Nodup ∧ (castLookup.map (·.1)).Nodup := by
-  sorry
+  decide
 
 /-- shape of a serialised rule: `condition`, `cast` (None or a mapping of type names), `path` -/
 theorem C13_rule_json_shape (r : RuleM) (js : PyVal) (h : ruleToJson r = .ok js) :
     ∃ c cast ps, js = .dict [(.str "condition", c), (.str "cast", cast), (.str "path", .list ps)] ∧
       condToJson r.cond = .ok c ∧ toPartSpecs r.path = .ok ps ∧ (r.cast = [] ↔ cast = .none) := by
-  sorry
+  obtain ⟨c, cast, ps, rfl, hcast, hc, hp⟩ := C13L.ruleToJson_ok r js h
+  exact ⟨c, cast, ps, rfl, hc, hp, C13L.castJson_none_iff r.cast cast hcast⟩
 
 /-- casts round-trip: what is written for `{str: int}` / `{str: cast_string_to_bool}` is read back as
     the same cast -/
@@ -29,7 +32,13 @@ theorem C13_casts_roundtrip :
     (∀ r : RuleM, r.cast = [(PyType.str, "cast_string_to_bool")] → ∀ js, ruleToJson r = .ok js →
       ∃ cast, Py.dictGet (.str "cast") (match js with | .dict kvs => kvs | _ => []) = some cast ∧
         parseCasts (some cast) = .ok r.cast) := by
-  sorry
+  constructor <;> intro r hr js h <;>
+    obtain ⟨c, cast, ps, rfl, hcast, _, _⟩ := C13L.ruleToJson_ok r js h <;>
+    rw [hr] at hcast ⊢
+  · rw [C13L.castJson_str_int] at hcast; cases hcast
+    exact ⟨_, (C13L.dictGet_json c _ _).2.2.1, C13L.parseCasts_str_int⟩
+  · rw [C13L.castJson_str_bool] at hcast; cases hcast
+    exact ⟨_, (C13L.dictGet_json c _ _).2.2.1, C13L.parseCasts_str_bool⟩
 
 /-- a rule whose condition and path round-trip, round-trips: the parsed rule has the re-parsed
     condition, the rebuilt path and the same casts -/
@@ -39,14 +48,25 @@ theorem C13_rule_roundtrip (fuel : Nat) (r : RuleM) (c ps : PyVal) (items : List
     (hc' : parseCond fuel c = .ok c') (hp' : fromPartSpecs fuel items = .ok p') :
     ∃ js pr, ruleToJson r = .ok js ∧ parseRule fuel js = .ok pr ∧
       pr.rule.cond = c' ∧ pr.rule.path = p' ∧ pr.rule.cast = r.cast := by
-  sorry
+  have key : ∀ cast, C13L.castJson r.cast = .ok cast → parseCasts (some cast) = .ok r.cast →
+      ∃ js pr, ruleToJson r = .ok js ∧ parseRule fuel js = .ok pr ∧
+        pr.rule.cond = c' ∧ pr.rule.path = p' ∧ pr.rule.cast = r.cast := by
+    intro cast h1 h2
+    exact ⟨_, _, C13L.ruleToJson_of r c cast items h1 hc hp,
+      C13L.parseRule_json fuel c cast items c' p' r.cast hc' hp' h2, rfl, rfl, rfl⟩
+  rcases hcast with h | h | h
+  · exact key .none (by rw [h]; exact C13L.castJson_nil) (by rw [h]; exact C13L.parseCasts_none)
+  · exact key _ (by rw [h]; exact C13L.castJson_str_int) (by rw [h]; exact C13L.parseCasts_str_int)
+  · exact key _ (by rw [h]; exact C13L.castJson_str_bool) (by rw [h]; exact C13L.parseCasts_str_bool)
 
 /-- `Schema.__init__` re-sorts the rebuilt rules; sorting an already sorted list changes nothing -/
 theorem C13_sort_idempotent (rs : List RuleM) : Schema.mk' (Schema.mk' rs) = Schema.mk' rs := by
-  sorry
+  unfold Schema.mk'
+  exact List.mergeSort_of_pairwise (List.pairwise_mergeSort C06L.ruleLe_trans C06L.ruleLe_total rs)
 
 /-- a schema is serialised rule by rule, in applied order -/
 theorem C13_schema_json (rs : List RuleM) : schemaToJson rs = (rs.mapM ruleToJson).map PyVal.list := by
-  sorry
+  unfold schemaToJson
+  cases rs.mapM ruleToJson <;> rfl
 
 end ValidaProofs
